@@ -17,9 +17,17 @@ use crate::Ctx;
 use llguidance::Matcher;
 
 pub fn gen_case(rng: &mut Rng, idx: usize, thorough: bool) -> Value {
+    if idx % 6 == 5 {
+        // special tokens by id, over a vocabulary with special ids up to 1099: the byte length the rollback
+        // arithmetic uses for them is that of the spelling \xFF[id]
+        let lo = [300usize, 990, 1000, 1005, 1090, 998][idx / 6 % 6];
+        let g = format!("start: \"a\" <[{}-{}]> \"b\" (\"c\" | <[{}]>)*\n", lo, lo + 9, lo + 3);
+        return json!({"grammar": {"lark": g}, "texts": [crate::vocab::hex(b"abcc"), crate::vocab::hex(b"bc")],
+               "vocab_kind": 3, "canonical": false, "seed": rng.next() % 1_000_000_000, "steps": if thorough { 40 } else { 24 }});
+    }
     let (g, texts) = eng::gen_grammar(rng, idx);
     json!({"grammar": g.to_json(), "texts": texts.iter().map(|t| crate::vocab::hex(t)).collect::<Vec<_>>(),
-           "vocab_kind": idx % 3, "canonical": false, "seed": rng.next() % 1_000_000_000, "steps": if thorough { 40 } else { 24 }})
+           "vocab_kind": (idx + idx / 3) % 3, "canonical": false, "seed": rng.next() % 1_000_000_000, "steps": if thorough { 40 } else { 24 }})
 }
 
 fn lens(m: &Matcher) -> Option<String> {
